@@ -251,6 +251,11 @@ def run_worker(job, r):
             rc = 0 if (st == 3 and q.get('sigrc') == '0') else (int(q.get('herr', 0)) or int(q.get('sigrc', 1)) or 1)
             sig = q.get('sig') if rc == 0 else None
             info_reset = [i2.update(answered=False) for i2 in sess.tcp.values() if isinstance(i2, dict)]
+            if srv.behaviour not in HONEST and transport == 'async-tcp':
+                # garbage may be left in the byte stream: a server closes such a connection, the next request starts on a fresh one
+                for fd in [f for f, i2 in sess.tcp.items() if isinstance(f, int) and i2['open']]:
+                    cmd('net_eof %d' % fd)
+                cmd('async_run 0')
         b = srv.behaviour      # the server may have had to answer with an error status (level too high)
         r.observe((transport, version, b, 'ok' if rc == 0 else 'err', untrusted, L > 0))
         r.count('outcome_%s_%s' % (b if not untrusted else 'untrusted-alg', 'success' if rc == 0 else 'error'))
